@@ -256,6 +256,9 @@ def _constant_prop_pass(block, silence_unexpected_net_warnings=False):
             if net_checking.op in two_var_ops:
                 output = two_var_ops[net_checking.op](net_checking.args[0].val,
                                                       net_checking.args[1].val)
+                if net_checking.op == 'n':  # complement every bit of the operand width
+                    output = (~(net_checking.args[0].val & net_checking.args[1].val)
+                              & net_checking.args[0].bitmask)
             else:
                 output = one_var_ops[net_checking.op](net_checking.args[0].val,
                                                       net_checking.args[0].bitmask)
